@@ -29,6 +29,7 @@ func init() {
 			{"C10/binary-width", "every direct byte-order read or write (binary.LittleEndian.UintN / PutUintN) on a request path has an argument proven long enough", c10BinaryWidth},
 			{"C10/relay-conn", "the relay goroutine is started only with a connection that was dialled successfully", c10RelayConn},
 			{"C10/hijack-nil", "the packet loop starts only with both transports set", c10HijackNil},
+			{"C10/conn-writers", "client connections are written only through Tunnel.Write: two writers on one websocket connection make the library panic (C09's rule)", func(c *Ctx) { c09ConnWritersAs(c, "C10/conn-writers") }},
 		},
 	})
 }
@@ -690,14 +691,24 @@ func c10Contain(c *Ctx) {
 				return
 			}
 			visited[f] = true
-			if hasRecoveringDefer(f) {
-				return
-			}
+			// a recovering defer covers what runs after the defer statement, not the calls before it
+			rds := recoveringDefers(f)
 			n := cg.Nodes[f]
 			if n == nil {
 				return
 			}
 			for _, ed := range n.Out {
+				if len(rds) > 0 {
+					covered := ed.Site == nil
+					for _, d := range rds {
+						if ed.Site != nil && dominatesInstr(d, ed.Site) {
+							covered = true
+						}
+					}
+					if covered {
+						continue
+					}
+				}
 				cal := ed.Callee.Func
 				name := fnName(cal)
 				if isClientParser(name) {
